@@ -15,6 +15,7 @@ from .. import core
 from ..core import cz, cbool, cstr
 from ..runner import Entry, differential
 from . import c07_translate
+from . import c07_pygen
 
 PRE = ("From Coq.Strings Require Import String.\nFrom EsVerif.Common Require Import Base Bytes.\n"
        "From EsVerif.C07 Require Import Model Spec Verbose Swap Exec.\n")
@@ -338,7 +339,7 @@ def gen_form(r, names, allow_scalar=True):
 def gen_selection(r, nm):
     """(kind, list of names) — subsets and orderings, plus the malformed stream"""
     kind = r.choice(["subset", "subset", "subset", "subset-orig", "all", "single", "missing", "missing",
-                     "all-missing", "empty", "dup", "case", "overlong", "prefix"])
+                     "all-missing", "empty", "dup", "case", "overlong", "prefix", "all-but-one"])
     if kind in ("subset", "subset-orig"):
         k = r.randrange(1, max(2, len(nm)))
         sel = r.sample(nm, min(k, len(nm)))
@@ -347,6 +348,10 @@ def gen_selection(r, nm):
     elif kind == "all":
         sel = list(nm)
         r.shuffle(sel)
+    elif kind == "all-but-one":          # boundary: exactly one field is left out / left over
+        sel = list(nm)
+        r.shuffle(sel)
+        sel = sel[:-1] if len(sel) > 1 else sel
     elif kind == "single":
         sel = [r.choice(nm)]
     elif kind == "missing":
@@ -457,8 +462,28 @@ def proper_nonprefix(arr, sel):
     return 0 < len(s) < len(nm) and s != nm[:len(s)]
 
 
+_LAST = [None]        # the raw object returned by the last call (for the "caller modifies a returned array" sequences)
+
+
 def arr_out(f):
-    return run_ok(lambda: from_np(f()))
+    def g():
+        _LAST[0] = None
+        res = f()
+        _LAST[0] = res
+        return from_np(res)
+    return run_ok(g)
+
+
+def scribble(x):
+    """what a caller may do with an array it was handed back: overwrite it in place"""
+    import numpy as np
+    for a in (x if isinstance(x, (tuple, list)) else [x]):
+        if isinstance(a, np.ndarray) and a.size and a.flags.writeable:
+            try:
+                a.reshape(-1).view("u1")[...] = 0xEE
+            except Exception:       # noqa  (non-contiguous view: field by field)
+                for n in (a.dtype.names or ()):
+                    a[n] = np.zeros((), dtype=a.dtype[n].base)
 
 
 def untouched(a, j, what="input"):
@@ -532,6 +557,14 @@ def _arrays_of(c):
     return out
 
 
+def fix_alias(c2):
+    """an aliased case passes ONE object as both arguments: its second array is the first"""
+    import copy
+    if c2.get("alias") and "a1" in c2:
+        c2["a2"] = copy.deepcopy(c2["a1"])
+    return c2
+
+
 def retype_case(r, c, how):
     """deep copy of case c in which every field keeps its name, sub-array shape and ITEM SIZE (hence the record size)
     but gets another element type ('type') or only the other byte order ('order'), or only new data ('data');
@@ -566,11 +599,11 @@ def retype_case(r, c, how):
         if how != "data" and alts:
             pl["type"] = r.choice(alts)
         pl["cells"] = [gen_item(r, pl["type"], "finite").hex() for _ in pl["cells"]]
-    return c2
+    return fix_alias(c2)
 
 
 HIST_KINDS = ["same-names-other-types", "same-names-other-order", "same-object-mutated", "equal-new-object",
-              "other-keywords", "names-object-mutated", "same-size-other-names"]
+              "other-keywords", "names-object-mutated", "same-size-other-names", "returned-array-overwritten"]
 
 
 def rename_case(r, c):
@@ -590,7 +623,7 @@ def rename_case(r, c):
         c2["names"]["names"] = [ren(n) for n in c2["names"]["names"]]
     for d in c2.get("add") or []:
         d["name"] = ren(d["name"])
-    return c2
+    return fix_alias(c2)
 
 
 def _regen_vals(r, c2):
@@ -645,6 +678,12 @@ def history_variants(r, c, kind):
         j["prelude"] = [p]
     elif kind == "equal-new-object":
         j["prelude"] = [copy.deepcopy(j), retype_case(r, c, "type")]
+    elif kind == "returned-array-overwritten":
+        # the same call twice on the same argument objects; in between the caller overwrites what it was handed back
+        for i, a in enumerate(_arrays_of(j)):
+            a["obj"] = "A%d" % i
+        j["prelude"] = [copy.deepcopy(j)]
+        j["scribble"] = True
 
     elif kind == "other-keywords":
         p = copy.deepcopy(j)
@@ -686,7 +725,10 @@ def _impl_with_history(self, c):
     try:
         for p in c.get("prelude", []):
             try:
+                _LAST[0] = None
                 self.impl1(p)
+                if c.get("scribble"):
+                    scribble(_LAST[0])
             except Exception:       # noqa  (a prelude call only has to happen)
                 pass
         return self.impl1(c)
@@ -1115,7 +1157,7 @@ class Copy(Entry):
         for _ in range(ctx.n(185, 2200)):
             a1 = gen_array(r, ctx)
             kind = r.choice(["same-shape", "same-shape", "same-shape", "same-shape", "size-differs", "lead-1",
-                             "incompatible-shape", "disjoint", "all-common-permuted", "order-differs", "order-differs"])
+                             "incompatible-shape", "disjoint", "all-common-permuted", "order-differs", "order-differs", "alias"])
             shape = list(a1["shape"])
             n = nelem(shape)
             if kind == "size-differs":
@@ -1137,7 +1179,10 @@ class Copy(Entry):
                      "cells": [gen_cell(r, gt, f["sub"]).hex() for _ in range(nelem(shape))]}
                 fs.insert(r.randrange(0, len(fs) + 1), g)
             a2 = {"shape": shape, "layout": own["layout"], "fields": fs}
-            cs.append({"a1": a1, "a2": a2, "family": "%s/%dd" % (kind, len(a1["shape"]))})
+            if kind == "alias":          # copy_fields(a, a): source and destination are the SAME object
+                import copy as _copy
+                a2 = _copy.deepcopy(a1)
+            cs.append({"a1": a1, "a2": a2, "alias": kind == "alias", "family": "%s/%dd" % (kind, len(a1["shape"]))})
         for _ in range(n_long(ctx)):
             a1 = gen_long_array(r, ctx)
             n = a1["shape"][0]
@@ -1155,7 +1200,7 @@ class Copy(Entry):
 
         def f():
             a2 = to_np(c["a2"], written=True)
-            a1 = to_np(c["a1"])
+            a1 = a2 if c.get("alias") else to_np(c["a1"])
             try:
                 nu.copy_fields(a1, a2)
             finally:
@@ -1309,6 +1354,7 @@ class Split(Entry):
                 res = nu.split_fields(a, **kw)
             finally:
                 untouched(a, c["arr"])
+            _LAST[0] = res[0] if (isinstance(res, tuple) and len(res) == 2 and isinstance(res[0], tuple)) else res
             names = []
             if c["getnames"]:
                 res, nm = res
@@ -1420,7 +1466,7 @@ class Compare(Entry):
         cs = []
         for _ in range(ctx.n(200, 2200)):
             a1 = gen_array(r, ctx, mode=r.choice(["values", "finite", "finite"]))
-            kind = r.choice(["copy", "copy", "byteswapped", "one-item", "one-item", "fields-differ", "reordered",
+            kind = r.choice(["copy", "copy", "alias", "byteswapped", "one-item", "one-item", "fields-differ", "reordered",
                              "shape-differs", "sub-differs", "neg-zero", "nan", "wider-string", "size-differs",
                              "only-in-1", "only-in-2"])
             if kind in ("only-in-1", "only-in-2"):
@@ -1496,6 +1542,7 @@ class Compare(Entry):
                 im = r.random() < 0.25
             cs.append({"a1": a1, "a2": a2, "ignore_missing": im, "verbose": r.random() < 0.2,
                        "omit_kw": im and r.random() < 0.3,      # ignore_missing=True is the documented default
+                       "alias": kind == "alias",               # compare_arrays(a, a): one object as both arguments
                        "family": "%s/%dd" % (kind, len(a1["shape"]))})
         for _ in range(n_long(ctx)):
             a1 = gen_long_array(r, ctx)
@@ -1525,6 +1572,8 @@ class Compare(Entry):
             nu.stdout = io.StringIO()          # verbose=True only writes text; keep the check's output clean
             try:
                 a1, a2 = to_np(c["a1"]), to_np(c["a2"])
+                if c.get("alias"):
+                    a2 = a1
                 if c.get("omit_kw"):
                     res = nu.compare_arrays(a1, a2)
                 else:
@@ -1704,6 +1753,19 @@ def run(ctx, replay=None):
                       {"kind": "translation", "error": str(e),
                        "no_longer_checks": "tie of C07/Gen.v + C07_source_parameters/allocation/defaults_and_raises "
                                            "to esutil/numpy_util.py"}, found_input=False)
+    # 1b. statement-level translation of four function bodies (GenCode.v); C07_code_is_model is re-checked against it
+    try:
+        changed2 = c07_pygen.regenerate(ctx.impl, core.COQDIR)
+        ctx.obligation("C07/GenCode.v regenerated from esutil/numpy_util.py (bodies of copy_fields, copy_fields_by_name, "
+                       "extract_fields, remove_fields translated statement by statement)%s" % (" [changed]" if changed2 else ""),
+                       True)
+    except c07_translate.TranslateError as e:
+        c07_pygen.restore_good(core.COQDIR)           # last good translation: the proofs and the model stay available
+        ctx.obligation("C07/GenCode.v regenerated from esutil/numpy_util.py", False, str(e))
+        ctx.violation("statement-level translation of the field operations failed (fail-closed): %s" % e,
+                      {"kind": "translation", "error": str(e),
+                       "no_longer_checks": "tie C07_code_is_model (GenCode.v = Model.v) to esutil/numpy_util.py"},
+                      found_input=False)
     # 2. theorems (C07_source_* are re-checked against the regenerated Gen.v)
     built = core.proof_step(ctx, "C07", core.ALLOW_DISCRETE)
     if not built:
